@@ -232,6 +232,12 @@ func (a *scramAuth) handleServerFirstResponse(fromServer []byte) ([]byte, error)
 
 // handleServerValidationMessage verifies the server's signature during the SCRAM authentication process.
 func (a *scramAuth) handleServerValidationMessage(fromServer []byte) ([]byte, error) {
+	// The server signature can only be verified against the salted password and the auth message
+	// of a running exchange. Without them the expected signature would be computed over empty
+	// input, which anybody can do.
+	if len(a.saltedPwd) == 0 || len(a.authMessage) == 0 {
+		return nil, errors.New("unexpected server signature: no SCRAM exchange in progress")
+	}
 	serverSignature := fromServer[2:]
 	computedServerSignature := a.computeServerSignature()
 
